@@ -10,7 +10,7 @@ The latter allows interactions between the μSim and SimPy components.
 from typing import Optional, List, Tuple, Coroutine, Generator, TypeVar, Iterable,\
     Union
 from .._core.handler import __USIM_STATE__, AbstractLoop
-from .. import time, run as usim_run, Concurrent
+from .. import time, instant, run as usim_run, Concurrent
 from .. import Scope
 
 from .events import Event
@@ -128,6 +128,11 @@ class Environment:
                 if until is not None:
                     if isinstance(until, Event):
                         await until.__usimpy_flag__
+                        # do not stop before the callbacks of the event have run;
+                        # a failure of the event is handled by reporting it from run
+                        until.defused = True
+                        while not until.processed:
+                            await instant
                     else:
                         if until < time.now:
                             raise ValueError('until must be in the future')
